@@ -65,6 +65,7 @@ def histories(ctx):
         f = Fingerprinter(level=o['level'], radius_multiplier=o['mult'], stereo=o['stereo'], include_disconnected=o['incl'],
                           rdkit_invariants=o['rdkit'], exclude_floating=o['exfloat'], remove_duplicate_substructs=o['remdup'])
         hist_lit, hist_json = [], []
+        maxk = 0
         last_conf = None
         stats['histories'] += 1
         for step in range(rng.choice([2, 3, 4, 6]) if ctx.quick else rng.choice([2, 4, 8, 12])):
@@ -96,6 +97,7 @@ def histories(ctx):
                 f.get_fingerprint_at_level(rng.choice([None, 0, 1]), atom_mask=set([0]) if rng.random() < 0.3 else set())
                 stats['queries_between'] += 1
             got = (int(f.current_level), molfacts.observe(f))
+            maxk = max(maxk, got[0])
             want = fresh(m, cid, o)
             tie_ok = tie_ok and not unstable(mi, cid, o)
             hist_json.append({'mol': smi, 'conf': cid, 'how': how})
@@ -111,7 +113,11 @@ def histories(ctx):
         else:
             key = 'hist%d' % hno
             if tie_ok:
-                cases.append((key, 'check_history %s %s %s %s' % (molfacts.opts_lit(o), core.listlit(hist_lit), core.zlit(got[0]), molfacts.levels_lit(got[1], got[0]))))
+                # the reused object's dictionary keys and its answers at every explicit level (also levels only an EARLIER conformer reached)
+                keys = sorted(int(l) for l in f.level_shells.keys())
+                qs = [m1lib.query_lit(False, 2 ** 32, lv, [], m1lib.query_impl(f, lv, 2 ** 32, [])) for lv in [None, -1] + list(range(0, maxk + 2))]
+                cases.append((key, 'check_history_queries %s %s %s %s %s %s' % (molfacts.opts_lit(o), core.listlit(hist_lit), core.zlit(got[0]),
+                                                                               molfacts.levels_lit(got[1], got[0]), core.zlist(keys), core.listlit(qs))))
             payloads[key] = {'opts': m1lib.opts_json(o), 'history': hist_json}
             stats['tie_skipped_unstable'] = stats.get('tie_skipped_unstable', 0) + (0 if tie_ok else 1)
         if mutable_defaults() != before:
